@@ -18,6 +18,7 @@ import (
 	"os"
 	"path/filepath"
 	"strings"
+	"time"
 
 	"chainguard.dev/apko/pkg/apk/apk"
 	"verifharness/gal"
@@ -34,6 +35,7 @@ type idesc struct {
 	GoodRanges int `json:"range_requests_answered_before_403,omitempty"`
 	Got1    int    `json:"delivered_by_faulty_download"`
 	Err1    string `json:"error_of_faulty_download,omitempty"`
+	Mid     int    `json:"advertised_bytes_seen_during_faulty_download"`
 	Adv1    int    `json:"advertised_bytes_after_faulty_download"`
 	Tmps1   int    `json:"orphan_temporaries_after_faulty_download"`
 	Got2    int    `json:"delivered_by_healthy_download"`
@@ -173,6 +175,20 @@ func indexStage(dir string, seed uint64, tier string) error {
 		var tmps [2]int
 		var effCuts1 int
 		var corner1, unframed1 bool
+		// what another process finds under the advertised name WHILE the first download's body streams into the cache:
+		// looked at when the server has flushed the bytes before its (first) cut and the connection is still open
+		var midAdv []byte
+		midHas, midSeen := false, false
+		if p.cached {
+			srv.atCut = func() {
+				if midSeen {
+					return
+				}
+				midSeen = true
+				time.Sleep(20 * time.Millisecond) // let the client's copy catch up with what was flushed
+				midAdv, midHas, _ = inspectCache(cdir)
+			}
+		}
 		for phase := 0; phase < 2; phase++ {
 			if phase == 1 {
 				srv.mu.Lock()
@@ -244,6 +260,9 @@ func indexStage(dir string, seed uint64, tier string) error {
 				big = true
 			}
 		}
+		if len(midAdv) > 300 && !(len(midAdv) <= p.dlen && string(midAdv) == string(data[:len(midAdv)])) {
+			big = true
+		}
 		path := "plain"
 		if p.cached {
 			path = "cached"
@@ -255,13 +274,18 @@ func indexStage(dir string, seed uint64, tier string) error {
 			continue
 		}
 		term := fmt.Sprintf("{| i_seed := %s; i_len := %s; i_cached := %s; i_model := %s; i_conn := %s; i_reads := %s; i_live := %s; "+
-			"o_res1 := %s; o_adv1 := %s; o_tmps1 := %s; o_res2 := %s; o_adv2 := %s; o_tmps2 := %s |}",
+			"o_mid := %s; o_res1 := %s; o_adv1 := %s; o_tmps1 := %s; o_res2 := %s; o_adv2 := %s; o_tmps2 := %s |}",
 			gal.Nat(dseed), gal.Nat(p.dlen), gal.Bool(p.cached), gal.Bool(model), conn, reads, gal.Bool(live),
+			optBytes(midHas, midAdv, dseed, p.dlen, data),
 			optBytes(ok[0], got[0], dseed, p.dlen, data), optBytes(hasAdv[0], adv[0], dseed, p.dlen, data), gal.Nat(tmps[0]),
 			optBytes(ok[1], got[1], dseed, p.dlen, data), optBytes(hasAdv[1], adv[1], dseed, p.dlen, data), gal.Nat(tmps[1]))
 		advLen := -1
 		if hasAdv[0] {
 			advLen = len(adv[0])
+		}
+		midLen := -1
+		if midHas {
+			midLen = len(midAdv)
 		}
 		cutClass := "uncut"
 		if isCut {
@@ -269,7 +293,7 @@ func indexStage(dir string, seed uint64, tier string) error {
 		}
 		w.Add(gal.Case{Term: term, Class: fmt.Sprintf("index-%s/%s/%s/%s", path, kindNames[p.kind], framingNames[p.framing], cutClass), Trivial: len(p.cuts) == 0 && p.refuse == 0,
 			Key:  fmt.Sprintf("%d", i),
-			Desc: idesc{path, kindNames[p.kind], p.dlen, framingNames[p.framing], p.fin, p.cuts, p.refuse, p.goodRanges, len(got[0]), es[0], advLen, tmps[0], len(got[1]), es[1], live, model}})
+			Desc: idesc{path, kindNames[p.kind], p.dlen, framingNames[p.framing], p.fin, p.cuts, p.refuse, p.goodRanges, len(got[0]), es[0], midLen, advLen, tmps[0], len(got[1]), es[1], live, model}})
 	}
 	return w.Flush()
 }
